@@ -19,14 +19,6 @@ def filesIn (tr : FsTree) (p : List Bytes) : List (Bytes × FileNode) :=
 def groupTree (tr : FsTree) : Tree9 :=
   ([] :: tr.dirs).map fun p => ⟨p, filesIn tr p, (tr.dirs.filter (fun d => d.dropLast = p)).length⟩
 
-theorem key_split : ∀ (k : List Bytes), k ≠ [] → k.dropLast ++ [k.getLastD []] = k
-  | [], h => absurd rfl h
-  | [a], _ => rfl
-  | a :: b :: r, _ => by
-    have := key_split (b :: r) (by simp)
-    simp only [List.dropLast_cons_cons, List.getLastD_cons, List.cons_append] at this ⊢
-    rw [this]
-
 theorem dirPaths_groupTree (tr : FsTree) : dirPaths (groupTree tr) = [] :: tr.dirs := by
   unfold dirPaths groupTree
   rw [List.map_map]
@@ -46,7 +38,7 @@ theorem groupTree_ok (tr : FsTree) (hw : FsWf tr) (hc : Cover tr) :
     refine ⟨e, he1, ?_, rfl⟩
     show e.1 = p ++ [e.1.getLastD []]
     rw [← of_decide_eq_true he2]
-    exact (key_split e.1 hne).symm
+    exact (path_split e.1 hne).symm
   · intro e he
     have hk : e.1 ∈ keysOf tr := List.mem_map.mpr ⟨e, he, rfl⟩
     have hne := (hw.keyComps e.1 hk).1
@@ -56,7 +48,7 @@ theorem groupTree_ok (tr : FsTree) (hw : FsWf tr) (hc : Cover tr) :
       · exact List.mem_cons_of_mem _ (hc e.1 hk e.1.dropLast h0 (List.prefix_refl _))
     refine ⟨_, List.mem_map.mpr ⟨e.1.dropLast, hp, rfl⟩, _,
       List.mem_map.mpr ⟨e, List.mem_filter.mpr ⟨he, by simp⟩, rfl⟩, ?_⟩
-    exact (key_split e.1 hne).symm
+    exact (path_split e.1 hne).symm
   · rw [dirPaths_groupTree, List.nodup_cons]
     exact ⟨fun h => (hw.dirComps [] h).1 rfl, hw.dirsNodup⟩
   · intro d hd
@@ -79,7 +71,7 @@ theorem groupTree_ok (tr : FsTree) (hw : FsWf tr) (hc : Cover tr) :
     have hna := (hw.keyComps a.1 (List.mem_map.mpr ⟨a, (List.mem_filter.mp ha).1, rfl⟩)).1
     have hnb := (hw.keyComps b.1 (List.mem_map.mpr ⟨b, (List.mem_filter.mp hb).1, rfl⟩)).1
     apply hab
-    rw [← key_split a.1 hna, ← key_split b.1 hnb, ha', hb', heq]
+    rw [← path_split a.1 hna, ← path_split b.1 hnb, ha', hb', heq]
   · intro d hd c hcm
     obtain ⟨p, hp, rfl⟩ := List.mem_map.mp hd
     rcases List.mem_cons.mp hp with rfl | hp
